@@ -110,6 +110,44 @@ theorem wfStarts_sorted (n train test : Nat) : (wfStarts n train test).Pairwise 
   unfold wfStarts
   exact (List.pairwise_lt_range).filter _
 
+/-- **No admissible fold is skipped**: every multiple `j·test` of the test size whose training + test window
+    still fits in the grid (`j·test + train + test ≤ n`) is the start of a generated fold. -/
+theorem walk_forward_complete (n train test : Nat) (sliding : Bool) (hte : 1 ≤ test) (j : Nat)
+    (hfit : j * test + train + test ≤ n) :
+    ∃ f ∈ walkForward n train test sliding, f.testStart = j * test + train ∧ f.testEnd = j * test + train + test - 1 := by
+  refine ⟨_, List.mem_map.mpr ⟨j * test, (mem_wfStarts n train test (j * test)).mpr ⟨by omega, Nat.mul_mod_left j test⟩, rfl⟩, rfl, rfl⟩
+
+/-- **The test windows tile**: if a fold starts at `s` and one more test window fits, the fold starting at
+    `s + test` is generated too, and its test window begins on the step right after this one's ends. -/
+theorem walk_forward_contiguous (n train test : Nat) (hte : 1 ≤ test) (s : Nat)
+    (hs : s ∈ wfStarts n train test) (hfit : s + test + train + test ≤ n) :
+    s + test ∈ wfStarts n train test ∧ (s + test) + train = (s + train + test - 1) + 1 := by
+  obtain ⟨_, hm⟩ := (mem_wfStarts n train test s).mp hs
+  refine ⟨(mem_wfStarts n train test (s + test)).mpr ⟨by omega, ?_⟩, by omega⟩
+  rw [Nat.add_mod_right]; exact hm
+
+/-- and nothing starts in between: generated starts are multiples of the test size -/
+theorem walk_forward_starts_multiple (n train test s : Nat) (hs : s ∈ wfStarts n train test) : test ∣ s :=
+  Nat.dvd_of_mod_eq_zero ((mem_wfStarts n train test s).mp hs).2
+
+/-- the request yields no fold at all exactly when not even one training + test window fits -/
+theorem walk_forward_empty_iff (n train test : Nat) (sliding : Bool) (hte : 1 ≤ test) :
+    walkForward n train test sliding = [] ↔ n < train + test := by
+  unfold walkForward
+  rw [List.map_eq_nil_iff]
+  constructor
+  · intro h
+    by_contra hge
+    have : 0 ∈ wfStarts n train test := (mem_wfStarts n train test 0).mpr ⟨by omega, Nat.zero_mod test⟩
+    rw [h] at this; cases this
+  · intro h
+    apply List.eq_nil_iff_forall_not_mem.mpr
+    intro s hs
+    have := ((mem_wfStarts n train test s).mp hs).1
+    omega
+
+example : (walkForward 10 4 2 true).map (fun f => (f.testStart, f.testEnd)) = [(4, 5), (6, 7), (8, 9)] := by decide
+
 end
 
 section
